@@ -1207,3 +1207,79 @@ def m_vec_retain(ex, st, call):
 def m_math_fract(ex, st, call):
     x = call.args[0].e
     return ex.ret(st, call, Float(z3.fpSub(RNE, x, z3.fpRoundToIntegral(RTZ, x))))
+
+
+@model(r'^<.* as CheapClone>::cheap_clone$')
+def m_cheap_clone(ex, st, call):
+    v = deref(ex, st, call.args[0])
+    if isinstance(v, Opaque):
+        st.event('clone', v)
+        return ex.ret(st, call, v)
+    if isinstance(v, (Str, Int, Bool, Float)):
+        return ex.ret(st, call, v)
+    return None
+
+
+@model(r'^HashMap::is_empty$|^HashSet::is_empty$|^VecDeque::is_empty$|^IndexMap::is_empty$')
+def m_map_is_empty(ex, st, call):
+    v = deref(ex, st, call.args[0])
+    if isinstance(v, (AbsVec, VecV)):
+        return ex.ret(st, call, Bool(ex.vec_len(v).e == 0))
+    return None
+
+
+@model(r'^HashMap::len$|^HashSet::len$|^VecDeque::len$|^IndexMap::len$')
+def m_map_len(ex, st, call):
+    v = deref(ex, st, call.args[0])
+    if isinstance(v, (AbsVec, VecV)):
+        return ex.ret(st, call, ex.vec_len(v))
+    return None
+
+
+@model(r'^HashMap::entry$')
+def m_map_entry(ex, st, call):
+    r, k = call.args
+    v = deref(ex, st, r)
+    if isinstance(v, AbsVec):
+        return ex.ret(st, call, Agg('entry', 'Entry', {0: r, 1: k}))
+    return None
+
+
+@model(r'^Entry::or_insert_with$')
+def m_entry_or_insert_with(ex, st, call):
+    ent, f = call.args
+    if not (isinstance(ent, Agg) and ent.kind == 'entry'):
+        return None
+    r, k = ent.fields[0], ent.fields[1]
+    m = deref(ex, st, r)
+    vty = call.generics[0][1] if call.generics and len(call.generics[0]) > 1 else (m.elem_ty or '')
+    out = []
+    # occupied: some earlier insert stored a value under this key (abstract map: value unknown)
+    kth = sum(1 for e_ in st.events if e_[0] in ('map_get', 'map_insert'))
+    present = z3.Bool('$key_present.%s.%d' % (m.tok if isinstance(m.tok, str) else 'm', kth))
+    t, fl = ex.split(st, z3.And(present, m.n != 0))
+    if t is not None:
+        val = ex.fresh(t, vty, '$mapval.%d' % kth) if vty else Opaque('map value', z3.Int('$mapval.%d' % kth))
+        t.event('map_get', m.tok, k, val)
+        a = t.alloc(val)
+        out += ex.ret(t, call, Ref(a))
+    if fl is not None:
+        def cont(ex_, s2, val):
+            s2.event('map_insert', m.tok, k, val)
+            mm = deref(ex_, s2, r)
+            ex_.store(s2, r.addr, r.path, AbsVec(mm.n + 1, (mm.tok, 'ins', len(s2.events)), mm.elem_ty))
+            a = s2.alloc(val)
+            return ex_.ret(s2, call, Ref(a))
+        out += ex.invoke_callable(fl, f, [], cont)
+    return out
+
+
+@model(r'^Box::new$')
+def m_box_new(ex, st, call):
+    a = st.alloc(call.args[0])
+    return ex.ret(st, call, ex.mk_box(Ref(a)))
+
+
+@model(r'^<Box<.*> as Drop>::drop$|^<Vec<.*> as Drop>::drop$|^<Rc<.*> as Drop>::drop$')
+def m_drop_noop(ex, st, call):
+    return ex.ret(st, call, UNIT)
